@@ -3,6 +3,7 @@ A three-type specification used only for non-vacuity examples (`example … := b
 the property theorems are met by concrete states, and the model functions compute the expected answers on them.
 
   type 0 (sequence): root <R>, sub-elements  <A> (def 1, versions {v0})  then  <B> (def 2, versions {v0, v1})
+  type 0 has the attributes 10, 11, 12 (strings, all versions): xmlns, xmlns:xsi, xsi:schemaLocation
   type 1 (characters, enumeration {7 in v0, 8 in v0+v1}), one attribute 5 (string, versions {v0})
   type 2 (characters, string)
 -/
@@ -14,23 +15,23 @@ def toySpec : Spec where
   nTypes := 3
   nDefs := 3
   nSubs := 2
-  nAttrs := 1
-  nVer := 3
+  nAttrs := 4
+  nVer := 6
   nCData := 2
   nRefItems := 0
   subStart := fun t => if t = 0 then 0 else 2
   subEnd := fun _ => 2
   subVer := fun _ => 0
-  attrStart := fun t => if t = 1 then 0 else 1
-  attrEnd := fun _ => 1
-  attrVer := fun _ => 2
+  attrStart := fun t => if t = 0 then 0 else if t = 1 then 3 else 4
+  attrEnd := fun t => if t = 0 then 3 else 4
+  attrVer := fun t => if t = 0 then 3 else 2
   cdataOf := fun t => if t = 1 then some 0 else if t = 2 then some 1 else none
   mode := fun t => if t = 0 then .sequence else .characters
   refStart := fun _ => 0
   refEnd := fun _ => 0
   subEntry := fun i => if i = 0 then .elem 1 else .elem 2
-  verInfo := fun i => if i = 1 then 3 else 1
-  attrName := fun _ => 5
+  verInfo := fun i => if i = 0 ∨ i = 2 then 1 else 3
+  attrName := fun i => if i = 3 then 5 else 10 + i
   attrCData := fun _ => 1
   attrRequired := fun _ => false
   refItem := fun _ => 0
@@ -38,7 +39,7 @@ def toySpec : Spec where
   defType := fun d => d
   defMult := fun d => if d = 2 then .any else .zeroOrOne
   defOrdered := fun _ => false
-  defSplit := fun _ => 0
+  defSplit := fun d => if d = 0 then 1 else 0   -- the root is splittable
   cspec := fun i => if i = 0 then .enum [(7, 1), (8, 3)] else .string false none
   refTypeIdx := 99
   rootDef := 0
